@@ -121,4 +121,4 @@ for _n in (2, 3, 4):
                types={"gaps": Tup(*([INT] * _n)), "dec": ROW}, returns=STR, pure=True,
                raises={"ValueError": "len(dec) != %d" % _n},
                ensures=["len(dec) == %d" % _n, "len(result) == 1",
-                        "ord(result) == (%s) %% 256" % " + ".join("gaps[%d] * dec[%d]" % (j, j) for j in range(_n))])
+                        "implies(len(dec) == %d, ord(result) == (%s) %% 256)" % (_n, " + ".join("gaps[%d] * dec[%d]" % (j, j) for j in range(_n)))])
